@@ -2404,7 +2404,7 @@ class XonshParser(Parser):
         return None
 
     def proc_cmd(self) -> Any | None:
-        # proc_cmd: &sub_proc_start ~ sub_procs | '@(' ~ (bare_genexp | expressions) ')' | '@$(' ~ proc_cmds ')' | env_atom | search_path | proc_macro_start ~ ((cmd_group | any_cmd))* | cmd_group | cmd_name
+        # proc_cmd: &sub_proc_start ~ sub_procs | '@(' ~ (bare_genexp | expressions) ')' | '@$(' ~ proc_cmds ')' | env_atom | search_path | proc_macro_start ~ MACRO_PARAM? | cmd_group | cmd_name
         mark = self._mark()
         _lnum, _col = self._tokenizer.peek().start
         cut = False
@@ -2432,7 +2432,7 @@ class XonshParser(Parser):
             return search_path
         self._reset(mark)
         cut = False
-        if (self.proc_macro_start()) and (cut := True) and (a := self.repeated(self._tmp_37),):
+        if (self.proc_macro_start()) and (cut := True) and (a := self.token("MACRO_PARAM"),):
             return self.proc_macro_arg(a, **self.span(_lnum, _col))
         self._reset(mark)
         if cut:
@@ -2498,10 +2498,10 @@ class XonshParser(Parser):
     def cmd_group(self) -> Any | None:
         # cmd_group: ('(' | '!(' | '$(') any_cmd* ')' | ('[' | '![' | '$[') any_cmd* ']'
         mark = self._mark()
-        if (a := self._tmp_38()) and (b := self.repeated(self.any_cmd),) and (c := self.expect(")")):
+        if (a := self._tmp_37()) and (b := self.repeated(self.any_cmd),) and (c := self.expect(")")):
             return "".join(i.string for i in [a, *b, c])
         self._reset(mark)
-        if (a := self._tmp_39()) and (b := self.repeated(self.any_cmd),) and (c := self.expect("]")):
+        if (a := self._tmp_38()) and (b := self.repeated(self.any_cmd),) and (c := self.expect("]")):
             return "".join(i.string for i in [a, *b, c])
         self._reset(mark)
         return None
@@ -2513,7 +2513,7 @@ class XonshParser(Parser):
         if (a := self.slice()) and (self.negative_lookahead(self.expect, ",")):
             return a
         self._reset(mark)
-        if (a := self.gathered(self._tmp_40, self.expect, ",")) and (self.expect(","),):
+        if (a := self.gathered(self._tmp_39, self.expect, ",")) and (self.expect(","),):
             return ast.Tuple(elts=a, ctx=Load, **self.span(_lnum, _col))
         self._reset(mark)
         return None
@@ -2526,7 +2526,7 @@ class XonshParser(Parser):
             (a := self.expression(),)
             and (self.expect(":"))
             and (b := self.expression(),)
-            and (c := self._tmp_41(),)
+            and (c := self._tmp_40(),)
         ):
             return ast.Slice(lower=a, upper=b, step=c, **self.span(_lnum, _col))
         self._reset(mark)
@@ -2554,20 +2554,20 @@ class XonshParser(Parser):
         if self.expect("None"):
             return ast.Constant(value=None, **self.span(_lnum, _col))
         self._reset(mark)
-        if (self.positive_lookahead(self._tmp_42)) and (strings := self.strings()):
+        if (self.positive_lookahead(self._tmp_41)) and (strings := self.strings()):
             return strings
         self._reset(mark)
         if a := self.token("NUMBER"):
             return ast.Constant(value=ast.literal_eval(a.string), **self.span(_lnum, _col))
         self._reset(mark)
-        if (self.positive_lookahead(self.expect, "(")) and (_tmp_43 := self._tmp_43()):
+        if (self.positive_lookahead(self.expect, "(")) and (_tmp_42 := self._tmp_42()):
+            return _tmp_42
+        self._reset(mark)
+        if (self.positive_lookahead(self.expect, "[")) and (_tmp_43 := self._tmp_43()):
             return _tmp_43
         self._reset(mark)
-        if (self.positive_lookahead(self.expect, "[")) and (_tmp_44 := self._tmp_44()):
+        if (self.positive_lookahead(self.expect, "{")) and (_tmp_44 := self._tmp_44()):
             return _tmp_44
-        self._reset(mark)
-        if (self.positive_lookahead(self.expect, "{")) and (_tmp_45 := self._tmp_45()):
-            return _tmp_45
         self._reset(mark)
         if self.expect("..."):
             return ast.Constant(value=Ellipsis, **self.span(_lnum, _col))
@@ -2586,7 +2586,7 @@ class XonshParser(Parser):
     def group(self) -> Any | None:
         # group: '(' (yield_expr | named_expression) ')' | invalid_group
         mark = self._mark()
-        if (self.expect("(")) and (a := self._tmp_46()) and (self.expect(")")):
+        if (self.expect("(")) and (a := self._tmp_45()) and (self.expect(")")):
             return a
         self._reset(mark)
         if self.call_invalid_rules and (self.invalid_group()):
@@ -2842,7 +2842,7 @@ class XonshParser(Parser):
     def strings(self) -> Any | None:
         # strings: ((fstring | STRING))+
         mark = self._mark()
-        if a := self.repeated(self._tmp_47):
+        if a := self.repeated(self._tmp_46):
             return self.concatenate_strings(a)
         self._reset(mark)
         return None
@@ -2860,7 +2860,7 @@ class XonshParser(Parser):
         # ptuple: '(' [star_named_expression ',' star_named_expressions?] ')'
         mark = self._mark()
         _lnum, _col = self._tokenizer.peek().start
-        if (self.expect("(")) and (a := self._tmp_48(),) and (self.expect(")")):
+        if (self.expect("(")) and (a := self._tmp_47(),) and (self.expect(")")):
             return ast.Tuple(elts=a or [], ctx=Load, **self.span(_lnum, _col))
         self._reset(mark)
         return None
@@ -2939,7 +2939,7 @@ class XonshParser(Parser):
             and (self.expect("in"))
             and (cut := True)
             and (b := self.disjunction())
-            and (c := self.repeated(self._tmp_49),)
+            and (c := self.repeated(self._tmp_48),)
         ):
             return ast.comprehension(target=a, iter=b, ifs=c, is_async=1)
         self._reset(mark)
@@ -2952,7 +2952,7 @@ class XonshParser(Parser):
             and (self.expect("in"))
             and (cut := True)
             and (b := self.disjunction())
-            and (c := self.repeated(self._tmp_49),)
+            and (c := self.repeated(self._tmp_48),)
         ):
             return ast.comprehension(target=a, iter=b, ifs=c, is_async=0)
         self._reset(mark)
@@ -3003,7 +3003,7 @@ class XonshParser(Parser):
         _lnum, _col = self._tokenizer.peek().start
         if (
             (self.expect("("))
-            and (a := self._tmp_51())
+            and (a := self._tmp_50())
             and (b := self.for_if_clauses())
             and (self.expect(")"))
         ):
@@ -3018,7 +3018,7 @@ class XonshParser(Parser):
         # bare_genexp: (assignment_expression | expression !':=') for_if_clauses
         mark = self._mark()
         _lnum, _col = self._tokenizer.peek().start
-        if (a := self._tmp_51()) and (b := self.for_if_clauses()):
+        if (a := self._tmp_50()) and (b := self.for_if_clauses()):
             return ast.GeneratorExp(elt=a, generators=b, **self.span(_lnum, _col))
         self._reset(mark)
         return None
@@ -3055,7 +3055,7 @@ class XonshParser(Parser):
     def args(self) -> tuple[list, list] | None:
         # args: ','.(starred_expression | (assignment_expression | expression !':=') !'=')+ [',' kwargs] | kwargs
         mark = self._mark()
-        if (a := self.gathered(self._tmp_53, self.expect, ",")) and (b := self._tmp_54(),):
+        if (a := self.gathered(self._tmp_52, self.expect, ",")) and (b := self._tmp_53(),):
             return (
                 a + ([e for e in b if isinstance(e, ast.Starred)] if b else []),
                 [e for e in b if not isinstance(e, ast.Starred)] if b else [],
@@ -3136,7 +3136,7 @@ class XonshParser(Parser):
         if (a := self.star_target()) and (self.negative_lookahead(self.expect, ",")):
             return a
         self._reset(mark)
-        if (a := self.star_target()) and (b := self.repeated(self._tmp_55),) and (self.expect(","),):
+        if (a := self.star_target()) and (b := self.repeated(self._tmp_54),) and (self.expect(","),):
             return ast.Tuple(elts=[a] + b, ctx=Store, **self.span(_lnum, _col))
         self._reset(mark)
         return None
@@ -3152,7 +3152,7 @@ class XonshParser(Parser):
     def star_targets_tuple_seq(self) -> list | None:
         # star_targets_tuple_seq: star_target ((',' star_target))+ ','? | star_target ','
         mark = self._mark()
-        if (a := self.star_target()) and (b := self.repeated(self._tmp_55)) and (self.expect(","),):
+        if (a := self.star_target()) and (b := self.repeated(self._tmp_54)) and (self.expect(","),):
             return [a] + b
         self._reset(mark)
         if (a := self.star_target()) and (self.expect(",")):
@@ -3165,7 +3165,7 @@ class XonshParser(Parser):
         # star_target: '*' (!'*' star_target) | target_with_star_atom
         mark = self._mark()
         _lnum, _col = self._tokenizer.peek().start
-        if (self.expect("*")) and (a := self._tmp_57()):
+        if (self.expect("*")) and (a := self._tmp_56()):
             return ast.Starred(value=self.set_expr_context(a, Store), ctx=Store, **self.span(_lnum, _col))
         self._reset(mark)
         if target_with_star_atom := self.target_with_star_atom():
@@ -3387,7 +3387,7 @@ class XonshParser(Parser):
         if (
             (self.token("NEWLINE"))
             and (t := self.token("TYPE_COMMENT"))
-            and (self.positive_lookahead(self._tmp_58))
+            and (self.positive_lookahead(self._tmp_57))
         ):
             return t.string
         self._reset(mark)
@@ -3412,7 +3412,7 @@ class XonshParser(Parser):
             (a := self.expression())
             and (b := self.for_if_clauses())
             and (self.expect(","))
-            and (self._tmp_59(),)
+            and (self._tmp_58(),)
         ):
             return self.raise_syntax_error_known_range(
                 "Generator expression must be parenthesized", a, b[-1].ifs[-1] if b[-1].ifs else b[-1].iter
@@ -3424,10 +3424,10 @@ class XonshParser(Parser):
             )
         self._reset(mark)
         if (
-            (self._tmp_60(),)
+            (self._tmp_59(),)
             and (a := self.name())
             and (b := self.expect("="))
-            and (self.positive_lookahead(self._tmp_61))
+            and (self.positive_lookahead(self._tmp_60))
         ):
             return self.raise_syntax_error_known_range("expected argument value expression", a, b)
         self._reset(mark)
@@ -3459,7 +3459,7 @@ class XonshParser(Parser):
     def invalid_kwarg(self) -> None:
         # invalid_kwarg: ('True' | 'False' | 'None') '=' | NAME '=' expression for_if_clauses | !(NAME '=') expression '=' | '**' expression '=' expression
         mark = self._mark()
-        if (a := self._tmp_62()) and (b := self.expect("=")):
+        if (a := self._tmp_61()) and (b := self.expect("=")):
             return self.raise_syntax_error_known_range(f"cannot assign to {a.string}", a, b)
         self._reset(mark)
         if (a := self.name()) and (b := self.expect("=")) and (self.expression()) and (self.for_if_clauses()):
@@ -3467,7 +3467,7 @@ class XonshParser(Parser):
                 "invalid syntax. Maybe you meant '==' or ':=' instead of '='?", a, b
             )
         self._reset(mark)
-        if (self.negative_lookahead(self._tmp_63)) and (a := self.expression()) and (b := self.expect("=")):
+        if (self.negative_lookahead(self._tmp_62)) and (a := self.expression()) and (b := self.expect("=")):
             return self.raise_syntax_error_known_range(
                 'expression cannot contain assignment, perhaps you meant "=="?', a, b
             )
@@ -3531,7 +3531,7 @@ class XonshParser(Parser):
         # invalid_expression: !(NAME STRING | SOFT_KEYWORD) disjunction expression_without_invalid | disjunction 'if' disjunction !('else' | ':') | 'lambda' lambda_params? ':' &(FSTRING_MIDDLE | fstring_replacement_field)
         mark = self._mark()
         if (
-            (self.negative_lookahead(self._tmp_64))
+            (self.negative_lookahead(self._tmp_63))
             and (a := self.disjunction())
             and (b := self.expression_without_invalid())
         ):
@@ -3545,7 +3545,7 @@ class XonshParser(Parser):
             (a := self.disjunction())
             and (self.expect("if"))
             and (b := self.disjunction())
-            and (self.negative_lookahead(self._tmp_65))
+            and (self.negative_lookahead(self._tmp_64))
         ):
             return self.raise_syntax_error_known_range("expected 'else' after 'if' expression", a, b)
         self._reset(mark)
@@ -3553,7 +3553,7 @@ class XonshParser(Parser):
             (a := self.expect("lambda"))
             and (self.lambda_params(),)
             and (b := self.expect(":"))
-            and (self.positive_lookahead(self._tmp_66))
+            and (self.positive_lookahead(self._tmp_65))
         ):
             return self.raise_syntax_error_known_range(
                 "f-string: lambda expressions are not allowed without parentheses", a, b
@@ -3574,7 +3574,7 @@ class XonshParser(Parser):
             (a := self.name())
             and (self.expect("="))
             and (b := self.bitwise_or())
-            and (self.negative_lookahead(self._tmp_67))
+            and (self.negative_lookahead(self._tmp_66))
         ):
             return (
                 None
@@ -3585,11 +3585,11 @@ class XonshParser(Parser):
             )
         self._reset(mark)
         if (
-            (self.negative_lookahead(self._tmp_68))
+            (self.negative_lookahead(self._tmp_67))
             and (a := self.bitwise_or())
             and (self.expect("="))
             and (self.bitwise_or())
-            and (self.negative_lookahead(self._tmp_67))
+            and (self.negative_lookahead(self._tmp_66))
         ):
             return (
                 None
@@ -3628,10 +3628,10 @@ class XonshParser(Parser):
         if (a := self.expression()) and (self.expect(":")) and (self.expression()):
             return self.raise_syntax_error_known_location("illegal target for annotation", a)
         self._reset(mark)
-        if (self.repeated(self._tmp_70),) and (a := self.star_expressions()) and (self.expect("=")):
+        if (self.repeated(self._tmp_69),) and (a := self.star_expressions()) and (self.expect("=")):
             return self.raise_syntax_error_invalid_target(Target.STAR_TARGETS, a)
         self._reset(mark)
-        if (self.repeated(self._tmp_70),) and (a := self.yield_expr()) and (self.expect("=")):
+        if (self.repeated(self._tmp_69),) and (a := self.yield_expr()) and (self.expect("=")):
             return self.raise_syntax_error_known_location("assignment to yield expression not possible", a)
         self._reset(mark)
         if (a := self.star_expressions()) and (self.augassign()) and (self.annotated_rhs()):
@@ -3679,13 +3679,13 @@ class XonshParser(Parser):
     def invalid_comprehension(self) -> None:
         # invalid_comprehension: ('[' | '(' | '{') starred_expression for_if_clauses | ('[' | '{') star_named_expression ',' star_named_expressions for_if_clauses | ('[' | '{') star_named_expression ',' for_if_clauses
         mark = self._mark()
-        if (self._tmp_72()) and (a := self.starred_expression()) and (self.for_if_clauses()):
+        if (self._tmp_71()) and (a := self.starred_expression()) and (self.for_if_clauses()):
             return self.raise_syntax_error_known_location(
                 "iterable unpacking cannot be used in comprehension", a
             )
         self._reset(mark)
         if (
-            (self._tmp_73())
+            (self._tmp_72())
             and (a := self.star_named_expression())
             and (self.expect(","))
             and (b := self.star_named_expressions())
@@ -3696,7 +3696,7 @@ class XonshParser(Parser):
             )
         self._reset(mark)
         if (
-            (self._tmp_73())
+            (self._tmp_72())
             and (a := self.star_named_expression())
             and (b := self.expect(","))
             and (self.for_if_clauses())
@@ -3729,7 +3729,7 @@ class XonshParser(Parser):
         if (a := self.expect("/")) and (self.expect(",")):
             return self.raise_syntax_error_known_location("at least one argument must precede /", a)
         self._reset(mark)
-        if (self._tmp_75()) and (self.repeated(self.param_maybe_default),) and (a := self.expect("/")):
+        if (self._tmp_74()) and (self.repeated(self.param_maybe_default),) and (a := self.expect("/")):
             return self.raise_syntax_error_known_location("/ may appear only once", a)
         self._reset(mark)
         if (
@@ -3753,10 +3753,10 @@ class XonshParser(Parser):
             return self.raise_syntax_error_known_range("Function parameters cannot be parenthesized", a, b)
         self._reset(mark)
         if (
-            (self._tmp_75(),)
+            (self._tmp_74(),)
             and (self.repeated(self.param_maybe_default),)
             and (self.expect("*"))
-            and (self._tmp_77())
+            and (self._tmp_76())
             and (self.repeated(self.param_maybe_default),)
             and (a := self.expect("/"))
         ):
@@ -3770,7 +3770,7 @@ class XonshParser(Parser):
     def invalid_default(self) -> Any | None:
         # invalid_default: '=' &(')' | ',')
         mark = self._mark()
-        if (a := self.expect("=")) and (self.positive_lookahead(self._tmp_78)):
+        if (a := self.expect("=")) and (self.positive_lookahead(self._tmp_77)):
             return self.raise_syntax_error_known_location("expected default value expression", a)
         self._reset(mark)
         return None
@@ -3778,7 +3778,7 @@ class XonshParser(Parser):
     def invalid_star_etc(self) -> Any | None:
         # invalid_star_etc: '*' (')' | ',' (')' | '**')) | '*' ',' TYPE_COMMENT | '*' param '=' | '*' (param_no_default | ',') param_maybe_default* '*' (param_no_default | ',')
         mark = self._mark()
-        if (a := self.expect("*")) and (self._tmp_79()):
+        if (a := self.expect("*")) and (self._tmp_78()):
             return self.raise_syntax_error_known_location("named arguments must follow bare *", a)
         self._reset(mark)
         if (self.expect("*")) and (self.expect(",")) and (self.token("TYPE_COMMENT")):
@@ -3791,10 +3791,10 @@ class XonshParser(Parser):
         self._reset(mark)
         if (
             (self.expect("*"))
-            and (self._tmp_80())
+            and (self._tmp_79())
             and (self.repeated(self.param_maybe_default),)
             and (a := self.expect("*"))
-            and (self._tmp_80())
+            and (self._tmp_79())
         ):
             return self.raise_syntax_error_known_location("* argument may appear only once", a)
         self._reset(mark)
@@ -3809,7 +3809,7 @@ class XonshParser(Parser):
         if (self.expect("**")) and (self.param()) and (self.expect(",")) and (a := self.param()):
             return self.raise_syntax_error_known_location("arguments cannot follow var-keyword argument", a)
         self._reset(mark)
-        if (self.expect("**")) and (self.param()) and (self.expect(",")) and (a := self._tmp_82()):
+        if (self.expect("**")) and (self.param()) and (self.expect(",")) and (a := self._tmp_81()):
             return self.raise_syntax_error_known_location("arguments cannot follow var-keyword argument", a)
         self._reset(mark)
         return None
@@ -3831,7 +3831,7 @@ class XonshParser(Parser):
         if (a := self.expect("/")) and (self.expect(",")):
             return self.raise_syntax_error_known_location("at least one argument must precede /", a)
         self._reset(mark)
-        if (self._tmp_83()) and (self.repeated(self.lambda_param_maybe_default),) and (a := self.expect("/")):
+        if (self._tmp_82()) and (self.repeated(self.lambda_param_maybe_default),) and (a := self.expect("/")):
             return self.raise_syntax_error_known_location("/ may appear only once", a)
         self._reset(mark)
         if (
@@ -3857,10 +3857,10 @@ class XonshParser(Parser):
             )
         self._reset(mark)
         if (
-            (self._tmp_83(),)
+            (self._tmp_82(),)
             and (self.repeated(self.lambda_param_maybe_default),)
             and (self.expect("*"))
-            and (self._tmp_85())
+            and (self._tmp_84())
             and (self.repeated(self.lambda_param_maybe_default),)
             and (a := self.expect("/"))
         ):
@@ -3889,7 +3889,7 @@ class XonshParser(Parser):
     def invalid_lambda_star_etc(self) -> None:
         # invalid_lambda_star_etc: '*' (':' | ',' (':' | '**')) | '*' lambda_param '=' | '*' (lambda_param_no_default | ',') lambda_param_maybe_default* '*' (lambda_param_no_default | ',')
         mark = self._mark()
-        if (self.expect("*")) and (self._tmp_86()):
+        if (self.expect("*")) and (self._tmp_85()):
             return self.raise_syntax_error("named arguments must follow bare *")
         self._reset(mark)
         if (self.expect("*")) and (self.lambda_param()) and (a := self.expect("=")):
@@ -3899,10 +3899,10 @@ class XonshParser(Parser):
         self._reset(mark)
         if (
             (self.expect("*"))
-            and (self._tmp_87())
+            and (self._tmp_86())
             and (self.repeated(self.lambda_param_maybe_default),)
             and (a := self.expect("*"))
-            and (self._tmp_87())
+            and (self._tmp_86())
         ):
             return self.raise_syntax_error_known_location("* argument may appear only once", a)
         self._reset(mark)
@@ -3922,7 +3922,7 @@ class XonshParser(Parser):
         ):
             return self.raise_syntax_error_known_location("arguments cannot follow var-keyword argument", a)
         self._reset(mark)
-        if (self.expect("**")) and (self.lambda_param()) and (self.expect(",")) and (a := self._tmp_82()):
+        if (self.expect("**")) and (self.lambda_param()) and (self.expect(",")) and (a := self._tmp_81()):
             return self.raise_syntax_error_known_location("arguments cannot follow var-keyword argument", a)
         self._reset(mark)
         return None
@@ -4002,7 +4002,7 @@ class XonshParser(Parser):
         if (
             (self.expect("async"),)
             and (self.expect("with"))
-            and (self.gathered(self._tmp_91, self.expect, ","))
+            and (self.gathered(self._tmp_90, self.expect, ","))
             and (self.expect_forced(self.expect(":"), "':'"))
         ):
             return None
@@ -4011,7 +4011,7 @@ class XonshParser(Parser):
             (self.expect("async"),)
             and (self.expect("with"))
             and (self.expect("("))
-            and (self.gathered(self._tmp_92, self.expect, ","))
+            and (self.gathered(self._tmp_91, self.expect, ","))
             and (self.expect(","),)
             and (self.expect(")"))
             and (self.expect_forced(self.expect(":"), "':'"))
@@ -4026,7 +4026,7 @@ class XonshParser(Parser):
         if (
             (self.expect("async"),)
             and (a := self.expect("with"))
-            and (self.gathered(self._tmp_91, self.expect, ","))
+            and (self.gathered(self._tmp_90, self.expect, ","))
             and (self.expect(":"))
             and (self.token("NEWLINE"))
             and (self.negative_lookahead(self.token, "INDENT"))
@@ -4039,7 +4039,7 @@ class XonshParser(Parser):
             (self.expect("async"),)
             and (a := self.expect("with"))
             and (self.expect("("))
-            and (self.gathered(self._tmp_92, self.expect, ","))
+            and (self.gathered(self._tmp_91, self.expect, ","))
             and (self.expect(","),)
             and (self.expect(")"))
             and (self.expect(":"))
@@ -4069,7 +4069,7 @@ class XonshParser(Parser):
             (self.expect("try"))
             and (self.expect(":"))
             and (self.block())
-            and (self.negative_lookahead(self._tmp_95))
+            and (self.negative_lookahead(self._tmp_94))
         ):
             return self.raise_syntax_error("expected 'except' or 'finally' block")
         self._reset(mark)
@@ -4081,7 +4081,7 @@ class XonshParser(Parser):
             and (a := self.expect("except"))
             and (b := self.expect("*"))
             and (self.expression())
-            and (self._tmp_96(),)
+            and (self._tmp_95(),)
             and (self.expect(":"))
         ):
             return self.raise_syntax_error_known_range(
@@ -4094,7 +4094,7 @@ class XonshParser(Parser):
             and (self.repeated(self.block),)
             and (self.repeated(self.except_star_block))
             and (a := self.expect("except"))
-            and (self._tmp_97(),)
+            and (self._tmp_96(),)
             and (self.expect(":"))
         ):
             return self.raise_syntax_error_known_location(
@@ -4112,7 +4112,7 @@ class XonshParser(Parser):
             and (a := self.expression())
             and (self.expect(","))
             and (self.expressions())
-            and (self._tmp_96(),)
+            and (self._tmp_95(),)
             and (self.expect(":"))
         ):
             return self.raise_syntax_error_starting_from("multiple exception types must be parenthesized", a)
@@ -4121,7 +4121,7 @@ class XonshParser(Parser):
             (self.expect("except"))
             and (self.expect("*"),)
             and (self.expression())
-            and (self._tmp_96(),)
+            and (self._tmp_95(),)
             and (self.token("NEWLINE"))
         ):
             return self.raise_syntax_error("expected ':'")
@@ -4129,7 +4129,7 @@ class XonshParser(Parser):
         if (self.expect("except")) and (self.expect("*"),) and (self.token("NEWLINE")):
             return self.raise_syntax_error("expected ':'")
         self._reset(mark)
-        if (self.expect("except")) and (self.expect("*")) and (self._tmp_100()):
+        if (self.expect("except")) and (self.expect("*")) and (self._tmp_99()):
             return self.raise_syntax_error("expected one or more exception types")
         self._reset(mark)
         return None
@@ -4155,7 +4155,7 @@ class XonshParser(Parser):
         if (
             (a := self.expect("except"))
             and (self.expression())
-            and (self._tmp_96(),)
+            and (self._tmp_95(),)
             and (self.expect(":"))
             and (self.token("NEWLINE"))
             and (self.negative_lookahead(self.token, "INDENT"))
@@ -4183,7 +4183,7 @@ class XonshParser(Parser):
             (a := self.expect("except"))
             and (self.expect("*"))
             and (self.expression())
-            and (self._tmp_96(),)
+            and (self._tmp_95(),)
             and (self.expect(":"))
             and (self.token("NEWLINE"))
             and (self.negative_lookahead(self.token, "INDENT"))
@@ -4273,7 +4273,7 @@ class XonshParser(Parser):
         # invalid_class_argument_pattern: [positional_patterns ','] keyword_patterns ',' positional_patterns
         mark = self._mark()
         if (
-            (self._tmp_103(),)
+            (self._tmp_102(),)
             and (self.keyword_patterns())
             and (self.expect(","))
             and (a := self.positional_patterns())
@@ -4394,7 +4394,7 @@ class XonshParser(Parser):
             and (self.expect("("))
             and (self.params(),)
             and (self.expect(")"))
-            and (self._tmp_104(),)
+            and (self._tmp_103(),)
             and (self.expect(":"))
             and (self.token("NEWLINE"))
             and (self.negative_lookahead(self.token, "INDENT"))
@@ -4412,7 +4412,7 @@ class XonshParser(Parser):
             (self.expect("class"))
             and (self.name())
             and (self.type_params(),)
-            and (self._tmp_105(),)
+            and (self._tmp_104(),)
             and (self.token("NEWLINE"))
         ):
             return self.raise_syntax_error("expected ':'")
@@ -4421,7 +4421,7 @@ class XonshParser(Parser):
             (a := self.expect("class"))
             and (self.name())
             and (self.type_params(),)
-            and (self._tmp_105(),)
+            and (self._tmp_104(),)
             and (self.expect(":"))
             and (self.token("NEWLINE"))
             and (self.negative_lookahead(self.token, "INDENT"))
@@ -4448,7 +4448,7 @@ class XonshParser(Parser):
                 "cannot use a starred expression in a dictionary value", a
             )
         self._reset(mark)
-        if (self.expression()) and (a := self.expect(":")) and (self.positive_lookahead(self._tmp_107)):
+        if (self.expression()) and (a := self.expect(":")) and (self.positive_lookahead(self._tmp_106)):
             return self.raise_syntax_error_known_location(
                 "expression expected after dictionary key and ':'", a
             )
@@ -4470,7 +4470,7 @@ class XonshParser(Parser):
                 "cannot use a starred expression in a dictionary value", a
             )
         self._reset(mark)
-        if (self.expression()) and (a := self.expect(":")) and (self.positive_lookahead(self._tmp_107)):
+        if (self.expression()) and (a := self.expect(":")) and (self.positive_lookahead(self._tmp_106)):
             return self.raise_syntax_error_known_location(
                 "expression expected after dictionary key and ':'", a
             )
@@ -4513,14 +4513,14 @@ class XonshParser(Parser):
         if (self.expect("{")) and (self.negative_lookahead(self.annotated_rhs)):
             return self.raise_syntax_error_on_next_token("f-string: expecting a valid expression after '{'")
         self._reset(mark)
-        if (self.expect("{")) and (self.annotated_rhs()) and (self.negative_lookahead(self._tmp_109)):
+        if (self.expect("{")) and (self.annotated_rhs()) and (self.negative_lookahead(self._tmp_108)):
             return self.raise_syntax_error_on_next_token("f-string: expecting '=', or '!', or ':', or '}'")
         self._reset(mark)
         if (
             (self.expect("{"))
             and (self.annotated_rhs())
             and (self.expect("="))
-            and (self.negative_lookahead(self._tmp_110))
+            and (self.negative_lookahead(self._tmp_109))
         ):
             return self.raise_syntax_error_on_next_token("f-string: expecting '!', or ':', or '}'")
         self._reset(mark)
@@ -4537,8 +4537,8 @@ class XonshParser(Parser):
             (self.expect("{"))
             and (self.annotated_rhs())
             and (self.expect("="),)
-            and (self._tmp_111(),)
-            and (self.negative_lookahead(self._tmp_112))
+            and (self._tmp_110(),)
+            and (self.negative_lookahead(self._tmp_111))
         ):
             return self.raise_syntax_error_on_next_token("f-string: expecting ':' or '}'")
         self._reset(mark)
@@ -4546,7 +4546,7 @@ class XonshParser(Parser):
             (self.expect("{"))
             and (self.annotated_rhs())
             and (self.expect("="),)
-            and (self._tmp_111(),)
+            and (self._tmp_110(),)
             and (self.expect(":"))
             and (self.repeated(self.fstring_format_spec),)
             and (self.negative_lookahead(self.expect, "}"))
@@ -4557,7 +4557,7 @@ class XonshParser(Parser):
             (self.expect("{"))
             and (self.annotated_rhs())
             and (self.expect("="),)
-            and (self._tmp_111(),)
+            and (self._tmp_110(),)
             and (self.negative_lookahead(self.expect, "}"))
         ):
             return self.raise_syntax_error_on_next_token("f-string: expecting '}'")
@@ -4567,7 +4567,7 @@ class XonshParser(Parser):
     def invalid_conversion_character(self) -> Any | None:
         # invalid_conversion_character: '!' &(':' | '}') | '!' !NAME
         mark = self._mark()
-        if (self.expect("!")) and (self.positive_lookahead(self._tmp_112)):
+        if (self.expect("!")) and (self.positive_lookahead(self._tmp_111)):
             return self.raise_syntax_error_on_next_token("f-string: missing conversion character")
         self._reset(mark)
         if (self.expect("!")) and (self.negative_lookahead(self.name)):
@@ -4757,7 +4757,7 @@ class XonshParser(Parser):
     def _tmp_32(self) -> Any | None:
         # _tmp_32: ('or' | '||') conjunction
         mark = self._mark()
-        if (self._tmp_116()) and (c := self.conjunction()):
+        if (self._tmp_115()) and (c := self.conjunction()):
             return c
         self._reset(mark)
         return None
@@ -4765,7 +4765,7 @@ class XonshParser(Parser):
     def _tmp_33(self) -> Any | None:
         # _tmp_33: ('and' | '&&') inversion
         mark = self._mark()
-        if (self._tmp_117()) and (c := self.inversion()):
+        if (self._tmp_116()) and (c := self.inversion()):
             return c
         self._reset(mark)
         return None
@@ -4794,67 +4794,60 @@ class XonshParser(Parser):
         )
 
     def _tmp_37(self) -> Any | None:
-        # _tmp_37: cmd_group | any_cmd
-        return self.seq_alts(
-            self.cmd_group,
-            self.any_cmd,
-        )
-
-    def _tmp_38(self) -> Any | None:
-        # _tmp_38: '(' | '!(' | '$('
+        # _tmp_37: '(' | '!(' | '$('
         return self.seq_alts(
             (self.expect, "("),
             (self.expect, "!("),
             (self.expect, "$("),
         )
 
-    def _tmp_39(self) -> Any | None:
-        # _tmp_39: '[' | '![' | '$['
+    def _tmp_38(self) -> Any | None:
+        # _tmp_38: '[' | '![' | '$['
         return self.seq_alts(
             (self.expect, "["),
             (self.expect, "!["),
             (self.expect, "$["),
         )
 
-    def _tmp_40(self) -> Any | None:
-        # _tmp_40: slice | starred_expression
+    def _tmp_39(self) -> Any | None:
+        # _tmp_39: slice | starred_expression
         return self.seq_alts(
             self.slice,
             self.starred_expression,
         )
 
-    def _tmp_41(self) -> Any | None:
-        # _tmp_41: ':' expression?
+    def _tmp_40(self) -> Any | None:
+        # _tmp_40: ':' expression?
         mark = self._mark()
         if (self.expect(":")) and (d := self.expression(),):
             return d
         self._reset(mark)
         return None
 
-    def _tmp_42(self) -> Any | None:
-        # _tmp_42: STRING | FSTRING_START
+    def _tmp_41(self) -> Any | None:
+        # _tmp_41: STRING | FSTRING_START
         return self.seq_alts(
             (self.token, "STRING"),
             (self.token, "FSTRING_START"),
         )
 
-    def _tmp_43(self) -> Any | None:
-        # _tmp_43: ptuple | group | genexp
+    def _tmp_42(self) -> Any | None:
+        # _tmp_42: ptuple | group | genexp
         return self.seq_alts(
             self.ptuple,
             self.group,
             self.genexp,
         )
 
-    def _tmp_44(self) -> Any | None:
-        # _tmp_44: plist | listcomp
+    def _tmp_43(self) -> Any | None:
+        # _tmp_43: plist | listcomp
         return self.seq_alts(
             self.plist,
             self.listcomp,
         )
 
-    def _tmp_45(self) -> Any | None:
-        # _tmp_45: dict | set | dictcomp | setcomp
+    def _tmp_44(self) -> Any | None:
+        # _tmp_44: dict | set | dictcomp | setcomp
         return self.seq_alts(
             self.dict,
             self.set,
@@ -4862,22 +4855,22 @@ class XonshParser(Parser):
             self.setcomp,
         )
 
-    def _tmp_46(self) -> Any | None:
-        # _tmp_46: yield_expr | named_expression
+    def _tmp_45(self) -> Any | None:
+        # _tmp_45: yield_expr | named_expression
         return self.seq_alts(
             self.yield_expr,
             self.named_expression,
         )
 
-    def _tmp_47(self) -> Any | None:
-        # _tmp_47: fstring | STRING
+    def _tmp_46(self) -> Any | None:
+        # _tmp_46: fstring | STRING
         return self.seq_alts(
             self.fstring,
             (self.token, "STRING"),
         )
 
-    def _tmp_48(self) -> Any | None:
-        # _tmp_48: star_named_expression ',' star_named_expressions?
+    def _tmp_47(self) -> Any | None:
+        # _tmp_47: star_named_expression ',' star_named_expressions?
         mark = self._mark()
         if (
             (y := self.star_named_expression())
@@ -4888,16 +4881,16 @@ class XonshParser(Parser):
         self._reset(mark)
         return None
 
-    def _tmp_49(self) -> Any | None:
-        # _tmp_49: 'if' disjunction
+    def _tmp_48(self) -> Any | None:
+        # _tmp_48: 'if' disjunction
         mark = self._mark()
         if (self.expect("if")) and (z := self.disjunction()):
             return z
         self._reset(mark)
         return None
 
-    def _tmp_51(self) -> Any | None:
-        # _tmp_51: assignment_expression | expression !':='
+    def _tmp_50(self) -> Any | None:
+        # _tmp_50: assignment_expression | expression !':='
         mark = self._mark()
         if assignment_expression := self.assignment_expression():
             return assignment_expression
@@ -4907,51 +4900,51 @@ class XonshParser(Parser):
         self._reset(mark)
         return None
 
-    def _tmp_53(self) -> Any | None:
-        # _tmp_53: starred_expression | (assignment_expression | expression !':=') !'='
+    def _tmp_52(self) -> Any | None:
+        # _tmp_52: starred_expression | (assignment_expression | expression !':=') !'='
         mark = self._mark()
         if starred_expression := self.starred_expression():
             return starred_expression
         self._reset(mark)
-        if (_tmp_51 := self._tmp_51()) and (self.negative_lookahead(self.expect, "=")):
-            return _tmp_51
+        if (_tmp_50 := self._tmp_50()) and (self.negative_lookahead(self.expect, "=")):
+            return _tmp_50
         self._reset(mark)
         return None
 
-    def _tmp_54(self) -> Any | None:
-        # _tmp_54: ',' kwargs
+    def _tmp_53(self) -> Any | None:
+        # _tmp_53: ',' kwargs
         mark = self._mark()
         if (self.expect(",")) and (k := self.kwargs()):
             return k
         self._reset(mark)
         return None
 
-    def _tmp_55(self) -> Any | None:
-        # _tmp_55: ',' star_target
+    def _tmp_54(self) -> Any | None:
+        # _tmp_54: ',' star_target
         mark = self._mark()
         if (self.expect(",")) and (c := self.star_target()):
             return c
         self._reset(mark)
         return None
 
-    def _tmp_57(self) -> Any | None:
-        # _tmp_57: !'*' star_target
+    def _tmp_56(self) -> Any | None:
+        # _tmp_56: !'*' star_target
         mark = self._mark()
         if (self.negative_lookahead(self.expect, "*")) and (star_target := self.star_target()):
             return star_target
         self._reset(mark)
         return None
 
-    def _tmp_58(self) -> Any | None:
-        # _tmp_58: NEWLINE INDENT
+    def _tmp_57(self) -> Any | None:
+        # _tmp_57: NEWLINE INDENT
         mark = self._mark()
         if (_newline := self.token("NEWLINE")) and (_indent := self.token("INDENT")):
             return [_newline, _indent]
         self._reset(mark)
         return None
 
-    def _tmp_59(self) -> Any | None:
-        # _tmp_59: args | expression for_if_clauses
+    def _tmp_58(self) -> Any | None:
+        # _tmp_58: args | expression for_if_clauses
         mark = self._mark()
         if args := self.args():
             return args
@@ -4961,39 +4954,39 @@ class XonshParser(Parser):
         self._reset(mark)
         return None
 
-    def _tmp_60(self) -> Any | None:
-        # _tmp_60: args ','
+    def _tmp_59(self) -> Any | None:
+        # _tmp_59: args ','
         mark = self._mark()
         if (args := self.args()) and (literal := self.expect(",")):
             return [args, literal]
         self._reset(mark)
         return None
 
-    def _tmp_61(self) -> Any | None:
-        # _tmp_61: ',' | ')'
+    def _tmp_60(self) -> Any | None:
+        # _tmp_60: ',' | ')'
         return self.seq_alts(
             (self.expect, ","),
             (self.expect, ")"),
         )
 
-    def _tmp_62(self) -> Any | None:
-        # _tmp_62: 'True' | 'False' | 'None'
+    def _tmp_61(self) -> Any | None:
+        # _tmp_61: 'True' | 'False' | 'None'
         return self.seq_alts(
             (self.expect, "True"),
             (self.expect, "False"),
             (self.expect, "None"),
         )
 
-    def _tmp_63(self) -> Any | None:
-        # _tmp_63: NAME '='
+    def _tmp_62(self) -> Any | None:
+        # _tmp_62: NAME '='
         mark = self._mark()
         if (name := self.name()) and (literal := self.expect("=")):
             return [name, literal]
         self._reset(mark)
         return None
 
-    def _tmp_64(self) -> Any | None:
-        # _tmp_64: NAME STRING | SOFT_KEYWORD
+    def _tmp_63(self) -> Any | None:
+        # _tmp_63: NAME STRING | SOFT_KEYWORD
         mark = self._mark()
         if (name := self.name()) and (_string := self.token("STRING")):
             return [name, _string]
@@ -5003,29 +4996,29 @@ class XonshParser(Parser):
         self._reset(mark)
         return None
 
-    def _tmp_65(self) -> Any | None:
-        # _tmp_65: 'else' | ':'
+    def _tmp_64(self) -> Any | None:
+        # _tmp_64: 'else' | ':'
         return self.seq_alts(
             (self.expect, "else"),
             (self.expect, ":"),
         )
 
-    def _tmp_66(self) -> Any | None:
-        # _tmp_66: FSTRING_MIDDLE | fstring_replacement_field
+    def _tmp_65(self) -> Any | None:
+        # _tmp_65: FSTRING_MIDDLE | fstring_replacement_field
         return self.seq_alts(
             (self.token, "FSTRING_MIDDLE"),
             self.fstring_replacement_field,
         )
 
-    def _tmp_67(self) -> Any | None:
-        # _tmp_67: '=' | ':='
+    def _tmp_66(self) -> Any | None:
+        # _tmp_66: '=' | ':='
         return self.seq_alts(
             (self.expect, "="),
             (self.expect, ":="),
         )
 
-    def _tmp_68(self) -> Any | None:
-        # _tmp_68: plist | ptuple | genexp | 'True' | 'None' | 'False'
+    def _tmp_67(self) -> Any | None:
+        # _tmp_67: plist | ptuple | genexp | 'True' | 'None' | 'False'
         return self.seq_alts(
             self.plist,
             self.ptuple,
@@ -5035,54 +5028,94 @@ class XonshParser(Parser):
             (self.expect, "False"),
         )
 
-    def _tmp_70(self) -> Any | None:
-        # _tmp_70: star_targets '='
+    def _tmp_69(self) -> Any | None:
+        # _tmp_69: star_targets '='
         mark = self._mark()
         if (star_targets := self.star_targets()) and (literal := self.expect("=")):
             return [star_targets, literal]
         self._reset(mark)
         return None
 
-    def _tmp_72(self) -> Any | None:
-        # _tmp_72: '[' | '(' | '{'
+    def _tmp_71(self) -> Any | None:
+        # _tmp_71: '[' | '(' | '{'
         return self.seq_alts(
             (self.expect, "["),
             (self.expect, "("),
             (self.expect, "{"),
         )
 
-    def _tmp_73(self) -> Any | None:
-        # _tmp_73: '[' | '{'
+    def _tmp_72(self) -> Any | None:
+        # _tmp_72: '[' | '{'
         return self.seq_alts(
             (self.expect, "["),
             (self.expect, "{"),
         )
 
-    def _tmp_75(self) -> Any | None:
-        # _tmp_75: slash_no_default | slash_with_default
+    def _tmp_74(self) -> Any | None:
+        # _tmp_74: slash_no_default | slash_with_default
         return self.seq_alts(
             self.slash_no_default,
             self.slash_with_default,
         )
 
-    def _tmp_77(self) -> Any | None:
-        # _tmp_77: ',' | param_no_default
+    def _tmp_76(self) -> Any | None:
+        # _tmp_76: ',' | param_no_default
         return self.seq_alts(
             (self.expect, ","),
             self.param_no_default,
         )
 
-    def _tmp_78(self) -> Any | None:
-        # _tmp_78: ')' | ','
+    def _tmp_77(self) -> Any | None:
+        # _tmp_77: ')' | ','
         return self.seq_alts(
             (self.expect, ")"),
             (self.expect, ","),
         )
 
-    def _tmp_79(self) -> Any | None:
-        # _tmp_79: ')' | ',' (')' | '**')
+    def _tmp_78(self) -> Any | None:
+        # _tmp_78: ')' | ',' (')' | '**')
         mark = self._mark()
         if literal := self.expect(")"):
+            return literal
+        self._reset(mark)
+        if (literal := self.expect(",")) and (_tmp_118 := self._tmp_118()):
+            return [literal, _tmp_118]
+        self._reset(mark)
+        return None
+
+    def _tmp_79(self) -> Any | None:
+        # _tmp_79: param_no_default | ','
+        return self.seq_alts(
+            self.param_no_default,
+            (self.expect, ","),
+        )
+
+    def _tmp_81(self) -> Any | None:
+        # _tmp_81: '*' | '**' | '/'
+        return self.seq_alts(
+            (self.expect, "*"),
+            (self.expect, "**"),
+            (self.expect, "/"),
+        )
+
+    def _tmp_82(self) -> Any | None:
+        # _tmp_82: lambda_slash_no_default | lambda_slash_with_default
+        return self.seq_alts(
+            self.lambda_slash_no_default,
+            self.lambda_slash_with_default,
+        )
+
+    def _tmp_84(self) -> Any | None:
+        # _tmp_84: ',' | lambda_param_no_default
+        return self.seq_alts(
+            (self.expect, ","),
+            self.lambda_param_no_default,
+        )
+
+    def _tmp_85(self) -> Any | None:
+        # _tmp_85: ':' | ',' (':' | '**')
+        mark = self._mark()
+        if literal := self.expect(":"):
             return literal
         self._reset(mark)
         if (literal := self.expect(",")) and (_tmp_119 := self._tmp_119()):
@@ -5090,132 +5123,92 @@ class XonshParser(Parser):
         self._reset(mark)
         return None
 
-    def _tmp_80(self) -> Any | None:
-        # _tmp_80: param_no_default | ','
-        return self.seq_alts(
-            self.param_no_default,
-            (self.expect, ","),
-        )
-
-    def _tmp_82(self) -> Any | None:
-        # _tmp_82: '*' | '**' | '/'
-        return self.seq_alts(
-            (self.expect, "*"),
-            (self.expect, "**"),
-            (self.expect, "/"),
-        )
-
-    def _tmp_83(self) -> Any | None:
-        # _tmp_83: lambda_slash_no_default | lambda_slash_with_default
-        return self.seq_alts(
-            self.lambda_slash_no_default,
-            self.lambda_slash_with_default,
-        )
-
-    def _tmp_85(self) -> Any | None:
-        # _tmp_85: ',' | lambda_param_no_default
-        return self.seq_alts(
-            (self.expect, ","),
-            self.lambda_param_no_default,
-        )
-
     def _tmp_86(self) -> Any | None:
-        # _tmp_86: ':' | ',' (':' | '**')
-        mark = self._mark()
-        if literal := self.expect(":"):
-            return literal
-        self._reset(mark)
-        if (literal := self.expect(",")) and (_tmp_120 := self._tmp_120()):
-            return [literal, _tmp_120]
-        self._reset(mark)
-        return None
-
-    def _tmp_87(self) -> Any | None:
-        # _tmp_87: lambda_param_no_default | ','
+        # _tmp_86: lambda_param_no_default | ','
         return self.seq_alts(
             self.lambda_param_no_default,
             (self.expect, ","),
         )
 
-    def _tmp_91(self) -> Any | None:
-        # _tmp_91: expression ['as' star_target]
+    def _tmp_90(self) -> Any | None:
+        # _tmp_90: expression ['as' star_target]
         mark = self._mark()
-        if (expression := self.expression()) and (opt := self._tmp_121(),):
+        if (expression := self.expression()) and (opt := self._tmp_120(),):
             return [expression, opt]
         self._reset(mark)
         return None
 
-    def _tmp_92(self) -> Any | None:
-        # _tmp_92: expressions ['as' star_target]
+    def _tmp_91(self) -> Any | None:
+        # _tmp_91: expressions ['as' star_target]
         mark = self._mark()
-        if (expressions := self.expressions()) and (opt := self._tmp_121(),):
+        if (expressions := self.expressions()) and (opt := self._tmp_120(),):
             return [expressions, opt]
         self._reset(mark)
         return None
 
-    def _tmp_95(self) -> Any | None:
-        # _tmp_95: 'except' | 'finally'
+    def _tmp_94(self) -> Any | None:
+        # _tmp_94: 'except' | 'finally'
         return self.seq_alts(
             (self.expect, "except"),
             (self.expect, "finally"),
         )
 
-    def _tmp_96(self) -> Any | None:
-        # _tmp_96: 'as' NAME
+    def _tmp_95(self) -> Any | None:
+        # _tmp_95: 'as' NAME
         mark = self._mark()
         if (literal := self.expect("as")) and (name := self.name()):
             return [literal, name]
         self._reset(mark)
         return None
 
-    def _tmp_97(self) -> Any | None:
-        # _tmp_97: expression ['as' NAME]
+    def _tmp_96(self) -> Any | None:
+        # _tmp_96: expression ['as' NAME]
         mark = self._mark()
-        if (expression := self.expression()) and (opt := self._tmp_96(),):
+        if (expression := self.expression()) and (opt := self._tmp_95(),):
             return [expression, opt]
         self._reset(mark)
         return None
 
-    def _tmp_100(self) -> Any | None:
-        # _tmp_100: NEWLINE | ':'
+    def _tmp_99(self) -> Any | None:
+        # _tmp_99: NEWLINE | ':'
         return self.seq_alts(
             (self.token, "NEWLINE"),
             (self.expect, ":"),
         )
 
-    def _tmp_103(self) -> Any | None:
-        # _tmp_103: positional_patterns ','
+    def _tmp_102(self) -> Any | None:
+        # _tmp_102: positional_patterns ','
         mark = self._mark()
         if (positional_patterns := self.positional_patterns()) and (literal := self.expect(",")):
             return [positional_patterns, literal]
         self._reset(mark)
         return None
 
-    def _tmp_104(self) -> Any | None:
-        # _tmp_104: '->' expression
+    def _tmp_103(self) -> Any | None:
+        # _tmp_103: '->' expression
         mark = self._mark()
         if (literal := self.expect("->")) and (expression := self.expression()):
             return [literal, expression]
         self._reset(mark)
         return None
 
-    def _tmp_105(self) -> Any | None:
-        # _tmp_105: '(' arguments? ')'
+    def _tmp_104(self) -> Any | None:
+        # _tmp_104: '(' arguments? ')'
         mark = self._mark()
         if (literal := self.expect("(")) and (opt := self.arguments(),) and (literal_1 := self.expect(")")):
             return [literal, opt, literal_1]
         self._reset(mark)
         return None
 
-    def _tmp_107(self) -> Any | None:
-        # _tmp_107: '}' | ','
+    def _tmp_106(self) -> Any | None:
+        # _tmp_106: '}' | ','
         return self.seq_alts(
             (self.expect, "}"),
             (self.expect, ","),
         )
 
-    def _tmp_109(self) -> Any | None:
-        # _tmp_109: '=' | '!' | ':' | '}'
+    def _tmp_108(self) -> Any | None:
+        # _tmp_108: '=' | '!' | ':' | '}'
         return self.seq_alts(
             (self.expect, "="),
             (self.expect, "!"),
@@ -5223,59 +5216,59 @@ class XonshParser(Parser):
             (self.expect, "}"),
         )
 
-    def _tmp_110(self) -> Any | None:
-        # _tmp_110: '!' | ':' | '}'
+    def _tmp_109(self) -> Any | None:
+        # _tmp_109: '!' | ':' | '}'
         return self.seq_alts(
             (self.expect, "!"),
             (self.expect, ":"),
             (self.expect, "}"),
         )
 
-    def _tmp_111(self) -> Any | None:
-        # _tmp_111: '!' NAME
+    def _tmp_110(self) -> Any | None:
+        # _tmp_110: '!' NAME
         mark = self._mark()
         if (literal := self.expect("!")) and (name := self.name()):
             return [literal, name]
         self._reset(mark)
         return None
 
-    def _tmp_112(self) -> Any | None:
-        # _tmp_112: ':' | '}'
+    def _tmp_111(self) -> Any | None:
+        # _tmp_111: ':' | '}'
         return self.seq_alts(
             (self.expect, ":"),
             (self.expect, "}"),
         )
 
-    def _tmp_116(self) -> Any | None:
-        # _tmp_116: 'or' | '||'
+    def _tmp_115(self) -> Any | None:
+        # _tmp_115: 'or' | '||'
         return self.seq_alts(
             (self.expect, "or"),
             (self.expect, "||"),
         )
 
-    def _tmp_117(self) -> Any | None:
-        # _tmp_117: 'and' | '&&'
+    def _tmp_116(self) -> Any | None:
+        # _tmp_116: 'and' | '&&'
         return self.seq_alts(
             (self.expect, "and"),
             (self.expect, "&&"),
         )
 
-    def _tmp_119(self) -> Any | None:
-        # _tmp_119: ')' | '**'
+    def _tmp_118(self) -> Any | None:
+        # _tmp_118: ')' | '**'
         return self.seq_alts(
             (self.expect, ")"),
             (self.expect, "**"),
         )
 
-    def _tmp_120(self) -> Any | None:
-        # _tmp_120: ':' | '**'
+    def _tmp_119(self) -> Any | None:
+        # _tmp_119: ':' | '**'
         return self.seq_alts(
             (self.expect, ":"),
             (self.expect, "**"),
         )
 
-    def _tmp_121(self) -> Any | None:
-        # _tmp_121: 'as' star_target
+    def _tmp_120(self) -> Any | None:
+        # _tmp_120: 'as' star_target
         mark = self._mark()
         if (literal := self.expect("as")) and (star_target := self.star_target()):
             return [literal, star_target]
